@@ -38,12 +38,12 @@ const bigSize = 16<<20 + 1
 // ---- in-memory zip.File ----
 
 type mzFile struct {
-	P     []int  `json:"path"`
-	Mode  string `json:"mode"`
-	Size  string `json:"size"`
-	LstatErr bool `json:"lstat"`
-	Gover string `json:"gover"`
-	idx   int
+	P        []int  `json:"path"`
+	Mode     string `json:"mode"`
+	Size     string `json:"size"`
+	LstatErr bool   `json:"lstat"`
+	Gover    string `json:"gover"`
+	idx      int
 }
 
 func (f *mzFile) Path() string { return concrete.Str(f.P) }
